@@ -626,7 +626,7 @@ fn write_evidence(
     }
     if sims.contains("c") {
         real.push("axum Router built by server main (via H3), Json extractor, handlers, server::solve_instance, hyper HTTP/1 connection state machine");
-        stub.push("TCP listener/socket (in-memory SimPipe), tokio runtime and task spawning (hand-rolled seeded executor with catch_unwind per connection), no timers exist");
+        stub.push("TCP listener/socket (in-memory SimPipe), tokio runtime and task spawning (hand-rolled seeded executor with catch_unwind per connection; in overlap runs one parked OS thread per connection, released one at a time by the seeded scheduler at the H2 stage boundaries), no timers exist");
     }
     let mut samples = agg.samples.clone();
     if samples.is_empty() {
